@@ -3,10 +3,12 @@ package c17
 import (
 	"fmt"
 	"math"
+	"sort"
 
 	ad "github.com/pbenner/autodiff"
 	stat "github.com/pbenner/autodiff/statistics"
 	"github.com/pbenner/autodiff/statistics/generic"
+	md "github.com/pbenner/autodiff/statistics/matrixDistribution"
 	me "github.com/pbenner/autodiff/statistics/matrixEstimator"
 	sd "github.com/pbenner/autodiff/statistics/scalarDistribution"
 	se "github.com/pbenner/autodiff/statistics/scalarEstimator"
@@ -41,12 +43,18 @@ type entryDef struct {
 	// 1 = OptimizeEmissions false, 2 = OptimizeWeights / OptimizeTransitions
 	// false, 3 = both false)
 	NOpt int
+	// Big: with more jobs than threads, half of the cases use T*[Big, 3*Big]
+	// observations (0: never)
+	Big int
 }
 
 // buildOpt selects the error-path and option variants of a workload.
 type buildOpt struct {
 	Bad bool // one observation on which the density evaluation fails
 	Opt int  // option combination (see entryDef.NOpt)
+	// Kind forces the density family of the scalar data-set entries (list
+	// "densities": every density type at least once per sweep)
+	Kind string
 }
 
 func (o buildOpt) optE() bool { return o.Opt != 1 && o.Opt != 3 } // OptimizeEmissions
@@ -114,8 +122,110 @@ func scalarEst(kind string, idx int) (both, error) {
 			rot[i] = th[(i+idx)%4]
 		}
 		return se.NewCategoricalEstimator(rot)
+	case "translation":
+		// wrapper estimators: their estimate is a wrapper density (PdfTranslation /
+		// PdfLogTransform) with scratch state of its own, cloned per thread by the
+		// data sets
+		b, err := se.NewNormalEstimator(-0.75+3*float64(idx), 1.0, sigmaMin)
+		if err != nil {
+			return nil, err
+		}
+		return se.NewTranslationEstimator(b, 0.75)
+	case "logTransform":
+		b, err := se.NewNormalEstimator(0.3+0.5*float64(idx), 0.5, sigmaMin)
+		if err != nil {
+			return nil, err
+		}
+		return se.NewLogTransformEstimator(b, 1.0)
 	}
 	return nil, fmt.Errorf("unknown kind %s", kind)
+}
+
+// extraPdfs: every other scalar density of the library (all of them carry
+// scratch scalars, which is why the data sets clone them per thread) and
+// wrappers around them; used by the EvaluateLogPdf entries.  Domain: "pos"
+// (0.2, 3.2), "unit" (0.05, 0.85), "count".
+var extraPdfs = map[string]struct {
+	domain string
+	mk     func(i float64) (stat.ScalarPdf, error)
+}{
+	"gamma": {"pos", func(i float64) (stat.ScalarPdf, error) {
+		return sd.NewGammaDistribution(ad.NewFloat64(2+i), ad.NewFloat64(1.5))
+	}},
+	"chiSquared": {"pos", func(i float64) (stat.ScalarPdf, error) { return sd.NewChiSquaredDistribution(ad.Float64Type, 3+i) }},
+	"generalizedGamma": {"pos", func(i float64) (stat.ScalarPdf, error) {
+		return sd.NewGeneralizedGammaDistribution(ad.NewFloat64(1.5), ad.NewFloat64(2+i), ad.NewFloat64(1.2))
+	}},
+	"cauchy": {"pos", func(i float64) (stat.ScalarPdf, error) {
+		return sd.NewCauchyDistribution(ad.NewFloat64(1+i), ad.NewFloat64(0.8))
+	}},
+	"laplace": {"pos", func(i float64) (stat.ScalarPdf, error) {
+		return sd.NewLaplaceDistribution(ad.NewFloat64(1+i), ad.NewFloat64(0.8))
+	}},
+	"gev": {"pos", func(i float64) (stat.ScalarPdf, error) {
+		return sd.NewGevDistribution(ad.NewFloat64(1+0.5*i), ad.NewFloat64(1.5), ad.NewFloat64(0.1))
+	}},
+	"gpareto": {"pos", func(i float64) (stat.ScalarPdf, error) {
+		return sd.NewGParetoDistribution(ad.NewFloat64(0.1), ad.NewFloat64(1+i), ad.NewFloat64(0.2))
+	}},
+	"pareto": {"pos", func(i float64) (stat.ScalarPdf, error) {
+		return sd.NewParetoDistribution(ad.NewFloat64(0.1), ad.NewFloat64(1.5+i))
+	}},
+	"powerLaw": {"pos", func(i float64) (stat.ScalarPdf, error) {
+		return sd.NewPowerLawDistribution(ad.NewFloat64(2.5+i), ad.NewFloat64(0.1))
+	}},
+	"beta": {"unit", func(i float64) (stat.ScalarPdf, error) {
+		return sd.NewBetaDistribution(ad.NewFloat64(2+i), ad.NewFloat64(3), false)
+	}},
+	"binomial": {"count", func(i float64) (stat.ScalarPdf, error) {
+		return sd.NewBinomialDistribution(ad.NewFloat64(0.3+0.2*i), 15)
+	}},
+	"negativeBinomial": {"count", func(i float64) (stat.ScalarPdf, error) {
+		return sd.NewNegativeBinomialDistribution(ad.NewFloat64(3+i), ad.NewFloat64(0.5))
+	}},
+	"mixture(normal,normal)": {"pos", func(i float64) (stat.ScalarPdf, error) {
+		d1, _ := sd.NewNormalDistribution(ad.NewFloat64(0.5+i), ad.NewFloat64(0.7))
+		d2, _ := sd.NewNormalDistribution(ad.NewFloat64(2.5), ad.NewFloat64(0.9))
+		return sd.NewMixture(ad.NewDenseFloat64Vector([]float64{0.4, 0.6}), []stat.ScalarPdf{d1, d2})
+	}},
+	"translation(gamma)": {"pos", func(i float64) (stat.ScalarPdf, error) {
+		d, err := sd.NewGammaDistribution(ad.NewFloat64(2+i), ad.NewFloat64(1.5))
+		if err != nil {
+			return nil, err
+		}
+		return sd.NewPdfTranslation(d, 0.5)
+	}},
+	"logTransform(laplace)": {"pos", func(i float64) (stat.ScalarPdf, error) {
+		d, err := sd.NewLaplaceDistribution(ad.NewFloat64(0.5+0.3*i), ad.NewFloat64(0.6))
+		if err != nil {
+			return nil, err
+		}
+		return sd.NewPdfLogTransform(d, 1.0)
+	}},
+	"translation(translation(normal))": {"pos", func(i float64) (stat.ScalarPdf, error) {
+		d, _ := sd.NewNormalDistribution(ad.NewFloat64(1.5+i), ad.NewFloat64(0.8))
+		t, err := sd.NewPdfTranslation(d, 0.5)
+		if err != nil {
+			return nil, err
+		}
+		return sd.NewPdfTranslation(t, 0.25)
+	}},
+}
+
+var extraPdfNames = func() []string {
+	var r []string
+	for k := range extraPdfs {
+		r = append(r, k)
+	}
+	sort.Strings(r)
+	return r
+}()
+
+// tableKinds: families of the EvaluateLogPdf entries.
+func tableKinds(base []string) []string {
+	r := append([]string{}, base...)
+	r = append(r, "translation", "logTransform")
+	return append(r, extraPdfNames...)
 }
 
 func scalarData(r *prng.Rand, kind string, n, k int) []float64 {
@@ -127,15 +237,36 @@ func scalarData(r *prng.Rand, kind string, n, k int) []float64 {
 		return genReal(r, n)
 	case "poisson", "geometric", "negativeBinomial":
 		return genCounts(r, n, k)
-	case "exponential":
+	case "exponential", "logTransform":
 		return genPositive(r, n)
+	case "translation":
+		if k > 1 {
+			return genClusters(r, n, k)
+		}
+		return genReal(r, n)
 	case "categorical":
 		return genCategories(r, n, 4)
+	}
+	if e, ok := extraPdfs[kind]; ok {
+		switch e.domain {
+		case "count":
+			return genCounts(r, n, k)
+		case "unit":
+			x := genPositive(r, n)
+			for i := range x {
+				x[i] /= 4
+			}
+			return x
+		}
+		return genPositive(r, n)
 	}
 	return nil
 }
 
 func scalarPdf(kind string, idx int) (stat.ScalarPdf, error) {
+	if x, ok := extraPdfs[kind]; ok {
+		return x.mk(float64(idx))
+	}
 	e, err := scalarEst(kind, idx)
 	if err != nil {
 		return nil, err
@@ -374,7 +505,7 @@ func emNames(np, steps int) []string { return nil }
 
 func buildScalarMixture(discrete bool) func(r *prng.Rand, n int, o buildOpt) *workload {
 	return func(r *prng.Rand, n int, o buildOpt) *workload {
-		kind := r.Pick([]string{"normal", "poisson", "exponential", "categorical"})
+		kind := r.Pick([]string{"normal", "poisson", "exponential", "categorical", "translation", "logTransform"})
 		if discrete {
 			kind = r.Pick([]string{"poisson", "categorical", "geometric"})
 		}
@@ -472,6 +603,11 @@ func buildVectorMixture(r *prng.Rand, n int, o buildOpt) *workload {
 	if o.Bad {
 		X[r.Intn(n)][0] = math.Inf(1)
 	}
+	comp := "normal"
+	if kind == "ScalarId" && r.Bool() {
+		comp = "translation"
+		kind = "ScalarId(translation)"
+	}
 	w := &workload{Entry: "vectorEstimator.mixture", Variant: kind + o.tag(), Site: "generic.mixture_em", Items: n, Terms: n * k, K: kEM,
 		Wit: map[string]any{"kind": kind, "components": k, "x": X, "steps": steps, "OptimizeEmissions": o.optE(), "OptimizeWeights": o.optW()}}
 	w.run = func(pool threadpool.ThreadPool) ([]float64, error) {
@@ -482,8 +618,8 @@ func buildVectorMixture(r *prng.Rand, n int, o buildOpt) *workload {
 				c := -1.5 + 3*float64(i)
 				ests[i], err = ve.NewNormalEstimator([]float64{c, 0.5 * c}, []float64{1, 0, 0, 1}, sigmaMin*sigmaMin)
 			} else {
-				e1, _ := scalarEst("normal", i)
-				e2, _ := scalarEst("normal", 0)
+				e1, _ := scalarEst(comp, i)
+				e2, _ := scalarEst(comp, 0)
 				ests[i], err = ve.NewScalarId(e1, e2)
 			}
 			if err != nil {
@@ -570,7 +706,7 @@ func bwHook(lik *[]float64) generic.BaumWelchHook {
 
 func buildVectorHmm(nested bool) func(r *prng.Rand, n int, o buildOpt) *workload {
 	return func(r *prng.Rand, n int, o buildOpt) *workload {
-		kind := r.Pick([]string{"normal", "poisson", "categorical"})
+		kind := r.Pick([]string{"normal", "poisson", "categorical", "translation", "logTransform"})
 		if o.Bad && kind == "categorical" {
 			kind = "poisson" // see buildScalarMixture
 		}
@@ -654,13 +790,14 @@ func buildMatrixHmm(r *prng.Rand, n int, o buildOpt) *workload {
 	if o.Bad {
 		X[r.Intn(total)][0] = math.Inf(1)
 	}
-	w := &workload{Entry: "matrixEstimator.hmm", Variant: "ScalarId(normal,normal)" + o.tag(), Site: "generic.hmm_baumWelch", Items: n, Terms: total * m * m, K: kEM,
+	comp := r.Pick([]string{"normal", "translation"})
+	w := &workload{Entry: "matrixEstimator.hmm", Variant: "ScalarId(" + comp + "," + comp + ")" + o.tag(), Site: "generic.hmm_baumWelch", Items: n, Terms: total * m * m, K: kEM,
 		Wit: map[string]any{"states": m, "pi": pi, "tr": tr, "sequences": seqs, "steps": steps, "OptimizeEmissions": o.optE(), "OptimizeTransitions": o.optW()}}
 	w.run = func(pool threadpool.ThreadPool) ([]float64, error) {
 		ests := make([]stat.VectorEstimator, m)
 		for c := range ests {
-			e1, _ := scalarEst("normal", c)
-			e2, _ := scalarEst("normal", 0)
+			e1, _ := scalarEst(comp, c)
+			e2, _ := scalarEst(comp, 0)
 			e, err := ve.NewScalarId(e1, e2)
 			if err != nil {
 				return nil, err
@@ -784,9 +921,12 @@ func readTable(k, n int, get func(res ad.Scalar, c, i int) error) ([]float64, er
 
 func buildEvalScalarMixtureData(summarized bool) func(r *prng.Rand, n int, o buildOpt) *workload {
 	return func(r *prng.Rand, n int, o buildOpt) *workload {
-		kind := r.Pick([]string{"normal", "poisson", "categorical"})
+		kind := r.Pick(tableKinds([]string{"normal", "poisson", "categorical"}))
 		if summarized {
-			kind = r.Pick([]string{"poisson", "categorical"})
+			kind = r.Pick(tableKinds([]string{"poisson", "categorical", "poisson", "categorical"}))
+		}
+		if o.Kind != "" {
+			kind = o.Kind
 		}
 		k := r.Range(2, 3)
 		x := scalarData(r, kind, n, k)
@@ -799,6 +939,13 @@ func buildEvalScalarMixtureData(summarized bool) func(r *prng.Rand, n int, o bui
 		}
 		w := &workload{Entry: name, Variant: kind + o.tag(), Site: site, Items: n, Terms: 1, Exact: true,
 			Wit: map[string]any{"family": kind, "components": k, "x": x}}
+		if summarized {
+			seen := map[float64]bool{}
+			for _, v := range x {
+				seen[v] = true
+			}
+			w.Items = len(seen)
+		}
 		w.run = func(pool threadpool.ThreadPool) ([]float64, error) {
 			ed := make([]stat.ScalarPdf, k)
 			for i := range ed {
@@ -827,17 +974,24 @@ func buildEvalScalarMixtureData(summarized bool) func(r *prng.Rand, n int, o bui
 	}
 }
 
-func scalarIdPdf(idx int) (stat.VectorPdf, error) {
-	d1, err := scalarPdf("normal", idx)
+// vectorPdf: product densities over rows of dimension 2; comp selects the
+// scalar family, wrap the vector wrapper (ScalarId / ScalarIid).
+func vectorPdf(idx int, comp, wrap string) (stat.VectorPdf, error) {
+	d1, err := scalarPdf(comp, idx)
 	if err != nil {
 		return nil, err
 	}
-	d2, err := scalarPdf("normal", 0)
+	if wrap == "ScalarIid" {
+		return vd.NewScalarIid(d1, 2)
+	}
+	d2, err := scalarPdf(comp, 0)
 	if err != nil {
 		return nil, err
 	}
 	return vd.NewScalarId(d1, d2)
 }
+
+func scalarIdPdf(idx int) (stat.VectorPdf, error) { return vectorPdf(idx, "normal", "ScalarId") }
 
 func buildEvalVectorMixtureData(r *prng.Rand, n int, o buildOpt) *workload {
 	k := r.Range(2, 3)
@@ -845,12 +999,13 @@ func buildEvalVectorMixtureData(r *prng.Rand, n int, o buildOpt) *workload {
 	if o.Bad {
 		X[r.Intn(n)][0] = math.Inf(1)
 	}
-	w := &workload{Entry: "vectorEstimator.MixtureStdDataSet.EvaluateLogPdf", Variant: "ScalarId" + o.tag(), Site: "vectorEstimator.mixture_data", Items: n, Terms: 1, Exact: true,
+	comp, wrap := r.Pick([]string{"normal", "translation", "laplace", "cauchy"}), r.Pick([]string{"ScalarId", "ScalarIid"})
+	w := &workload{Entry: "vectorEstimator.MixtureStdDataSet.EvaluateLogPdf", Variant: wrap + "(" + comp + ")" + o.tag(), Site: "vectorEstimator.mixture_data", Items: n, Terms: 1, Exact: true,
 		Wit: map[string]any{"components": k, "x": X}}
 	w.run = func(pool threadpool.ThreadPool) ([]float64, error) {
 		ed := make([]stat.VectorPdf, k)
 		for i := range ed {
-			d, err := scalarIdPdf(i)
+			d, err := vectorPdf(i, comp, wrap)
 			if err != nil {
 				return nil, err
 			}
@@ -874,16 +1029,25 @@ func buildEvalMatrixMixtureData(r *prng.Rand, n int, o buildOpt) *workload {
 	if o.Bad {
 		M[r.Intn(n)][0][0] = math.Inf(1)
 	}
-	w := &workload{Entry: "matrixEstimator.MixtureStdDataSet.EvaluateLogPdf", Variant: "VectorId" + o.tag(), Site: "matrixEstimator.mixture_data", Items: n, Terms: 1, Exact: true,
+	comp, wrap := r.Pick([]string{"normal", "translation", "laplace"}), r.Pick([]string{"VectorId", "VectorIid"})
+	w := &workload{Entry: "matrixEstimator.MixtureStdDataSet.EvaluateLogPdf", Variant: wrap + "(" + comp + ")" + o.tag(), Site: "matrixEstimator.mixture_data", Items: n, Terms: 1, Exact: true,
 		Wit: map[string]any{"components": k, "x": M}}
 	w.run = func(pool threadpool.ThreadPool) ([]float64, error) {
 		ed := make([]stat.MatrixPdf, k)
 		for i := range ed {
-			e, err := vectorIdEst(i)
+			v1, err := vectorPdf(i, comp, "ScalarId")
 			if err != nil {
 				return nil, err
 			}
-			d, err := e.GetEstimate()
+			var d stat.MatrixPdf
+			if wrap == "VectorIid" {
+				d, err = md.NewVectorIid(v1, 2)
+			} else {
+				var v2 stat.VectorPdf
+				if v2, err = vectorPdf(i+1, comp, "ScalarId"); err == nil {
+					d, err = md.NewVectorId(v1, v2)
+				}
+			}
 			if err != nil {
 				return nil, err
 			}
@@ -922,9 +1086,12 @@ func readHmmTable(k int, ds generic.HmmDataSet) ([]float64, error) {
 // here the jobs are the observations: n observations in 1..3 records.
 func buildEvalVectorHmmData(summarized bool) func(r *prng.Rand, n int, o buildOpt) *workload {
 	return func(r *prng.Rand, n int, o buildOpt) *workload {
-		kind := r.Pick([]string{"normal", "poisson", "categorical"})
+		kind := r.Pick(tableKinds([]string{"normal", "poisson", "categorical"}))
 		if summarized {
-			kind = r.Pick([]string{"poisson", "categorical"})
+			kind = r.Pick(tableKinds([]string{"poisson", "categorical", "poisson", "categorical"}))
+		}
+		if o.Kind != "" {
+			kind = o.Kind
 		}
 		k := r.Range(2, 3)
 		x := scalarData(r, kind, n, k)
@@ -1001,12 +1168,13 @@ func buildEvalMatrixHmmData(r *prng.Rand, n int, o buildOpt) *workload {
 	for q := range seqs {
 		seqs[q] = X[q*n/nrec : (q+1)*n/nrec]
 	}
-	w := &workload{Entry: "matrixEstimator.HmmStdDataSet.EvaluateLogPdf", Variant: "ScalarId" + o.tag(), Site: "matrixEstimator.hmm_data", Items: n, Terms: 1, Exact: true,
+	comp, wrap := r.Pick([]string{"normal", "translation", "laplace", "cauchy"}), r.Pick([]string{"ScalarId", "ScalarIid"})
+	w := &workload{Entry: "matrixEstimator.HmmStdDataSet.EvaluateLogPdf", Variant: wrap + "(" + comp + ")" + o.tag(), Site: "matrixEstimator.hmm_data", Items: n, Terms: 1, Exact: true,
 		Wit: map[string]any{"emissions": k, "sequences": seqs}}
 	w.run = func(pool threadpool.ThreadPool) ([]float64, error) {
 		ed := make([]stat.VectorPdf, k)
 		for i := range ed {
-			d, err := scalarIdPdf(i)
+			d, err := vectorPdf(i, comp, wrap)
 			if err != nil {
 				return nil, err
 			}
@@ -1215,28 +1383,28 @@ var entries = []entryDef{
 	{Name: "scalarEstimator.geometric", build: buildClosedScalar("geometric")},
 	{Name: "scalarEstimator.negativeBinomial", build: buildClosedScalar("negativeBinomial")},
 	{Name: "scalarEstimator.categorical", build: buildClosedScalar("categorical")},
-	{Name: "scalarEstimator.logTransform", build: buildClosedScalar("logTransform")},
-	{Name: "scalarEstimator.translation", build: buildClosedScalar("translation")},
+	{Name: "scalarEstimator.logTransform", build: buildClosedScalar("logTransform"), Big: 3},
+	{Name: "scalarEstimator.translation", build: buildClosedScalar("translation"), Big: 3},
 	{Name: "vectorEstimator.normal", build: buildVectorNormal},
 	{Name: "vectorEstimator.scalarId", build: buildScalarId},
 	{Name: "vectorEstimator.scalarIid", build: buildScalarIid},
 	{Name: "matrixEstimator.vectorId", build: buildVectorId},
-	{Name: "scalarEstimator.mixture", build: buildScalarMixture(false), CanFail: true, NOpt: 3},
+	{Name: "scalarEstimator.mixture", build: buildScalarMixture(false), CanFail: true, NOpt: 3, Big: 3},
 	{Name: "scalarEstimator.mixture_discrete", build: buildScalarMixture(true), CanFail: true, NOpt: 3},
-	{Name: "vectorEstimator.mixture", build: buildVectorMixture, CanFail: true, NOpt: 3},
+	{Name: "vectorEstimator.mixture", build: buildVectorMixture, CanFail: true, NOpt: 3, Big: 3},
 	{Name: "matrixEstimator.mixture", build: buildMatrixMixture, CanFail: true, NOpt: 3},
 	{Name: "vectorEstimator.hmm", build: buildVectorHmm(false), CanFail: true, NOpt: 3},
 	{Name: "vectorEstimator.hmm(mixture-emissions)", build: buildVectorHmm(true), CanFail: true, NOpt: 3},
 	{Name: "matrixEstimator.hmm", build: buildMatrixHmm, CanFail: true, NOpt: 3},
 	{Name: "matrixEstimator.shapeHmm", build: buildShapeHmm, CanFail: true, NOpt: 3},
-	{Name: "scalarEstimator.MixtureStdDataSet.EvaluateLogPdf", build: buildEvalScalarMixtureData(false), CanFail: true},
-	{Name: "scalarEstimator.MixtureSummarizedDataSet.EvaluateLogPdf", build: buildEvalScalarMixtureData(true), CanFail: true},
-	{Name: "vectorEstimator.MixtureStdDataSet.EvaluateLogPdf", build: buildEvalVectorMixtureData, CanFail: true},
-	{Name: "matrixEstimator.MixtureStdDataSet.EvaluateLogPdf", build: buildEvalMatrixMixtureData, CanFail: true},
-	{Name: "vectorEstimator.HmmStdDataSet.EvaluateLogPdf", build: buildEvalVectorHmmData(false), CanFail: true},
-	{Name: "vectorEstimator.HmmSummarizedDataSet.EvaluateLogPdf", build: buildEvalVectorHmmData(true), CanFail: true},
-	{Name: "matrixEstimator.HmmStdDataSet.EvaluateLogPdf", build: buildEvalMatrixHmmData, CanFail: true},
-	{Name: "matrixEstimator.ShapeHmmDataSet.EvaluateLogPdf", build: buildEvalShapeData, CanFail: true},
+	{Name: "scalarEstimator.MixtureStdDataSet.EvaluateLogPdf", build: buildEvalScalarMixtureData(false), CanFail: true, Big: 8},
+	{Name: "scalarEstimator.MixtureSummarizedDataSet.EvaluateLogPdf", build: buildEvalScalarMixtureData(true), CanFail: true, Big: 8},
+	{Name: "vectorEstimator.MixtureStdDataSet.EvaluateLogPdf", build: buildEvalVectorMixtureData, CanFail: true, Big: 8},
+	{Name: "matrixEstimator.MixtureStdDataSet.EvaluateLogPdf", build: buildEvalMatrixMixtureData, CanFail: true, Big: 8},
+	{Name: "vectorEstimator.HmmStdDataSet.EvaluateLogPdf", build: buildEvalVectorHmmData(false), CanFail: true, Big: 8},
+	{Name: "vectorEstimator.HmmSummarizedDataSet.EvaluateLogPdf", build: buildEvalVectorHmmData(true), CanFail: true, Big: 8},
+	{Name: "matrixEstimator.HmmStdDataSet.EvaluateLogPdf", build: buildEvalMatrixHmmData, CanFail: true, Big: 8},
+	{Name: "matrixEstimator.ShapeHmmDataSet.EvaluateLogPdf", build: buildEvalShapeData, CanFail: true, Big: 8},
 	{Name: "scalarEstimator.numeric", build: buildNumeric, CanFail: true},
 	{Name: "vectorEstimator.logisticRegression", build: buildLogistic},
 }
